@@ -597,7 +597,11 @@ func encodeCase(c *core.Ctx, enc bool, vs []val) ([]mock.Frame, bool) {
 	putErr, alias := putAll(m, vs)
 	c.OracleCheck()
 	if alias != "" {
-		c.OracleFail("caller-slice-modified", alias, map[string]interface{}{"kind": "enc", "enc": enc, "vals": vs})
+		key := "caller-slice-modified"
+		if strings.Contains(alias, "caller's value") {
+			key = "caller-value-modified" // a Code* call in encode direction wrote to its argument
+		}
+		c.OracleFail(key, alias, map[string]interface{}{"kind": "enc", "enc": enc, "vals": vs})
 	}
 	if putErr != nil {
 		c.OracleFail("put-error", fmt.Sprintf("Put returned %v", putErr), map[string]interface{}{"kind": "enc", "enc": enc, "vals": vs})
